@@ -797,6 +797,15 @@ func (a *Analyzer) onOpen(n *nodeState, r *ev.Rec) {
 		// appended but never acknowledged may be gone after any restart)
 		_ = oldLast
 		// contiguous with snapshot
+		if st.Snap > 0 {
+			// the entry at the snapshot index, if the log still holds it, is
+			// the one the snapshot ends with
+			for i := range r.Log {
+				if x := r.Log[i]; x.Index == st.Snap && x.Term != st.SnapTerm {
+					a.find("C10", "log-contradicts-snapshot-after-restart", fmt.Sprintf("log-contradicts-snapshot-after-restart:%s", n.crashPoint), r.Q, "%s after restart: its snapshot ends at (%d,t%d) but its log holds (%d,t%d) there (crash point %q)", n.key, st.Snap, st.SnapTerm, x.Index, x.Term, n.crashPoint)
+				}
+			}
+		}
 		if st.LogLast != st.Last {
 			// the position at which the log file appends differs from the index
 			// the node gives its next entry
